@@ -576,6 +576,79 @@ static void buildCases(bool tsan, bool taskOk, bool threadOk)
   }
 }
 
+// ---- default launch method: several loops constructed without naming a launch method, over tasking systems of
+// different sizes (not initialised at all, 2, 4, 6 threads). Whatever the loop picks for itself, the protocol is the
+// same: every loop's body runs after its start() returned, is quiet after stop() returned, runs again after a restart.
+static void defaultLaunchScenario(long k)
+{
+  static const int NT[] = {0, 2, 4, 6, 3, 1};
+  int nThreads = NT[k % 6];
+  int nLoops   = 1 + (int)((k / 6) % 4);  // 1..4 (with 6 threads every loop may take a worker: 5 are there)
+  std::string ctx = "#" + std::to_string(k) + " default launch method, " + (nThreads ? "initTaskingSystem(" + std::to_string(nThreads) + ")" : std::string("tasking system not initialised")) + ", " +
+                    std::to_string(nLoops) + " loop(s) alive at the same time";
+  if (nThreads)
+    initTaskingSystem(nThreads);
+  struct L
+  {
+    std::atomic<long> bodies;
+    std::atomic<int> inside;
+    std::unique_ptr<AsyncLoop> loop;
+    L() : bodies(0), inside(0) {}
+  };
+  // the records are never freed: a loop that runs as a task may still be inside its body after the AsyncLoop object
+  // was destroyed (only a loop that owns its thread is joined by the destructor)
+  std::vector<L *> ls;
+  for (int i = 0; i < nLoops; ++i) {
+    ls.push_back(new L());
+    L *me = ls.back();
+    me->loop.reset(new AsyncLoop([me]() {
+      me->inside.store(1);
+      me->bodies.fetch_add(1);
+      std::this_thread::sleep_for(std::chrono::microseconds(50));
+      me->inside.store(0);
+    }));
+  }
+  auto waitBodies = [&](L *l, long above, double seconds) {
+    double t0 = vh::now();
+    while (l->bodies.load() <= above && vh::now() - t0 < seconds)
+      std::this_thread::sleep_for(std::chrono::microseconds(200));
+    return l->bodies.load() > above;
+  };
+  bool bad = false;
+  for (int round = 0; round < 2 && !bad; ++round) {
+    for (int i = 0; i < nLoops; ++i)
+      ls[i]->loop->start();
+    for (int i = 0; i < nLoops && !bad; ++i) {
+      long seen = ls[i]->bodies.load();
+      if (!waitBodies(ls[i], seen, 6.0) && !waitBodies(ls[i], seen, 6.0)) {
+        vh::violation("C03:R2:no-body-after-start-returned", "loop " + std::to_string(i) + " of " + std::to_string(nLoops) + ": no body began within 12 s after start() returned (round " + std::to_string(round) + ")", ctx);
+        bad = true;
+      }
+    }
+    for (int i = 0; i < nLoops && !bad; ++i) {
+      ls[i]->loop->stop();
+      long b0 = ls[i]->bodies.load();
+      int in0 = ls[i]->inside.load();
+      std::this_thread::sleep_for(std::chrono::milliseconds(2));
+      if (in0 || ls[i]->bodies.load() != b0) {
+        vh::violation("C03:R1:body-running-when-stop-returned", "loop " + std::to_string(i) + ": the body was executing / began again after stop() returned", ctx);
+        bad = true;
+      }
+    }
+  }
+  if (!bad) {
+    for (int i = 0; i < nLoops; ++i)
+      ls[i]->loop->start();
+    for (int i = 0; i < nLoops; ++i)
+      waitBodies(ls[i], ls[i]->bodies.load(), 6.0);
+  }
+  // destroyed while running (the fork watchdog covers a destructor that does not return)
+  for (int i = 0; i < nLoops; ++i)
+    ls[i]->loop.reset();
+  vh::count("default_launch_scenarios");
+  vh::evaluated(vh::hash64(vh::hash64(333, (uint64_t)nThreads), (uint64_t)nLoops), true);
+}
+
 int main(int argc, char **argv)
 {
   vh::init(argc, argv);
@@ -636,5 +709,9 @@ int main(int argc, char **argv)
   vh::forkedCases((long)g_cases.size(), runCase, 30000, 400,
                   [&](long k) { return std::string("C03-script ") + describeCase(g_cases[k], k); });
   vh::count("cases_generated", (long long)g_cases.size());
+  if (!tsan) {
+    // fresh process per scenario: the size of the tasking system is part of the scenario
+    vh::forkedCases(vh::tier(24, 96), defaultLaunchScenario, 60000, 1, [](long k) { return std::string("C03-default-launch #") + std::to_string(k); });
+  }
   return vh::finish();
 }
